@@ -636,7 +636,7 @@ fn run_steps(module: &str, md: &MessageDescriptor, data: &[u8], steps: Vec<(Supp
                 if own.as_ref().map_or(false, |o| canon(&**o) == canon(&*msg)) { pairs.push(format!("({}, {})", coq_bool(c), coq_bool(s2))); jp.push(format!("[{},{},{}]", json_str(cond), c, s2)); kinds.push("q:function-pair"); }
             }
         }
-        let strs: Vec<String> = it.1.iter().enumerate().filter(|(_, b)| b.len() <= 64).map(|(i, b)| format!("({}, {})", coq_n(i as u64), coq_bytes(b))).collect();
+        let strs: Vec<String> = it.1.iter().enumerate().map(|(i, b)| format!("({}, {})", coq_n(i as u64), coq_bytes(b))).collect();
         let coq = format!("mk \"{}\" (fun nm => ({}, {}, [{}], [{}], [{}], [{}]))", module, ty, val, strs.join("; "), qs.join("; "), pairs.join("; "),
             views.iter().map(|b| coq_bool(*b).to_string()).collect::<Vec<_>>().join("; "));
         let label = if n_steps > 1 { format!("{}:scan{}:{}", label, k + 1, how) } else { label };
